@@ -41,8 +41,8 @@ DET = {
  'C04-2': (False, 'C04', '', 'quick', 'boolean_op call site (ContourFilter) is not under contract'),
  'C04-3': (False, 'C04', '', 'quick', 'clip call site flags are not under contract'),
  'C17-1': (False, 'C17', '', 'quick', 'PlanarGraph::clone_for_arg_index is not under contract (CBMC timeout on the node map)'),
- 'C17-2': (False, 'C17', '', 'quick', 'prepare_geometry bounding rect is not under contract'),
- 'C17-3': (False, 'C17', '', 'quick', 'PreparedGeometry::boundary_dimensions is not under contract'),
+ 'C17-2': (False, 'C17', '', 'quick', 'prepare_geometry was put under a Verus contract afterwards (cached rectangle = bounding rectangle of the wrapped geometry); the seeded body calls R-tree methods outside the declared callee contracts, so the unit ends with a front-end error -> UNDECIDED (exit 2), not a VIOLATION'),
+ 'C17-3': (True, 'C17', 'Verus obligation C17.V.prepared_boundary_dimensions (postcondition: answers what the wrapped geometry answers)', 'quick', 'missed by the first run; Verus unit c17_prepared added afterwards (no K twin: VIOLATION ... no-failing-input-found)'),
  'C19-1': (False, 'C19', '', 'quick', 'GeometryCollection::bounding_rect: recursive Geometry delegation does not finish in CBMC'),
  'C19-2': (False, 'C19', '', 'quick', 'missed by the first run; harness c19_k_min_polygon_try_map_error_in_hole was added afterwards, but WITH the seeded change (flat_map over Result) CBMC times out on it, so the check ends UNDECIDED (exit 2), not with a VIOLATION'),
  'C19-3': (False, 'C19', '', 'quick', 'GeometryCollection::exterior_coords_iter: recursive Geometry delegation does not finish in CBMC'),
